@@ -262,4 +262,86 @@ Proof.
 Qed.
 End Slice.
 
+(* ---------------------------------------------------------------------------------------------- *)
+(** * the loop over dimensions of grideval *)
+Definition MPf (B : nat -> nat -> K) (n dim : nat) (X : list nat -> K) (g : list nat) : K :=
+  nsum n (fun k => mul (B (nth dim g 0) k) (X (upd g dim k))).
+
+(* the nested sum the loop computes, outermost sum = first dimension; position i of the index vector is
+   replaced by the summation index, the basis-matrix row is the grid index found there *)
+Fixpoint TS (X : list nat -> K) (ds : list (@dimn A)) (gs : list (list K)) (i : nat) (h : list nat) (pr : K) : K :=
+  match ds, gs with
+  | d :: ds', xs :: gs' =>
+      nsum (nsplines d) (fun k => TS X ds' gs' (S i) (upd h i k) (mul pr (mget (basis_matrix d xs) (nth i h 0) k)))
+  | _, _ => mul pr (X h)
+  end.
+
+Lemma TS_ext X X' : (forall h, X h = X' h) -> forall ds gs i h pr, TS X ds gs i h pr = TS X' ds gs i h pr.
+Proof.
+  intro H. induction ds as [|d ds IH]; intros gs i h pr; destruct gs as [|xs gs]; cbn [TS]; try (rewrite H; reflexivity).
+  apply nsum_ext. intros k _. apply IH.
+Qed.
+
+Lemma TS_push X B n i : forall ds gs j h pr, i < j ->
+  TS (MPf B n i X) ds gs j h pr = nsum n (fun k => TS X ds gs j (upd h i k) (mul pr (B (nth i h 0) k))).
+Proof.
+  assert (Base : forall h pr, mul pr (MPf B n i X h) = nsum n (fun k => mul (mul pr (B (nth i h 0) k)) (X (upd h i k)))).
+  { intros h pr. unfold MPf. rewrite <- nsum_scale. apply nsum_ext. intros k _. ring. }
+  induction ds as [|d ds IH]; intros gs j h pr Hij.
+  - cbn [TS]. apply Base.
+  - destruct gs as [|xs gs]; [cbn [TS]; apply Base|]. cbn [TS].
+    transitivity (nsum (nsplines d) (fun k' => nsum n (fun k =>
+       TS X ds gs (S j) (upd (upd h j k') i k) (mul (mul pr (mget (basis_matrix d xs) (nth j h 0) k')) (B (nth i (upd h j k') 0) k))))).
+    { apply nsum_ext. intros k' _. apply IH. lia. }
+    rewrite nsum_swap. apply nsum_ext. intros k _. apply nsum_ext. intros k' _.
+    rewrite (upd_comm h j i) by lia. rewrite !nth_upd_neq by lia. f_equal. ring.
+Qed.
+
+Lemma Forall_upd {X} (P : X -> Prop) (l : list X) : forall i v, Forall P l -> P v -> Forall P (upd l i v).
+Proof.
+  induction l as [|x l IH]; intros [|i] v Hl Hv; cbn [upd]; try constructor; inversion Hl; subst; auto.
+Qed.
+Lemma firstn_S_upd {X} (l : list X) : forall i v, i < length l -> firstn (S i) (upd l i v) = firstn i l ++ [v].
+Proof.
+  induction l as [|x l IH]; intros [|i] v H; cbn [length] in H; try lia; cbn [upd firstn app]; [reflexivity|].
+  f_equal. apply IH. lia.
+Qed.
+Lemma Forall_pos_nth (l : list nat) : Forall (fun r => 0 < r) l -> forall q, q < length l -> 0 < nth q l 0.
+Proof. intros H q Hq. rewrite Forall_forall in H. apply H. apply nth_In. exact Hq. Qed.
+
+Lemma grid_loop_spec : forall ds gs i (a : @ndsparse A),
+  wf_nd a -> length (nd_ranges a) = i + length ds -> length gs = length ds ->
+  Forall (fun r => 0 < r) (nd_ranges a) -> Forall (fun xs : list K => xs <> []) gs ->
+  (forall q d, nth_error ds q = Some d -> nsplines d = nth (i + q) (nd_ranges a) 0) ->
+  wf_nd (grid_loop i ds gs a) /\
+  (forall g, nd_get (grid_loop i ds gs a) g = TS (nd_get a) ds gs i g one) /\
+  nd_ranges (grid_loop i ds gs a) = firstn i (nd_ranges a) ++ map (@length K) gs.
+Proof.
+  induction ds as [|d ds IH]; intros gs i a Hwf Hlen Hgs Hpos Hne Hns.
+  - destruct gs; [|discriminate]. cbn [grid_loop TS map]. split; [exact Hwf|]. split; [intro g; ring|].
+    rewrite app_nil_r. rewrite firstn_all2 by (cbn [length] in Hlen; lia). reflexivity.
+  - destruct gs as [|xs gs]; [discriminate|]. cbn [grid_loop]. cbn [length] in Hlen, Hgs.
+    pose proof (Hns 0 d eq_refl) as Hn0. rewrite Nat.add_0_r in Hn0. rewrite Hn0.
+    inversion Hne as [|? ? Hx Hne']; subst.
+    assert (Hi : i < length (nd_ranges a)) by lia.
+    assert (Hp : forall l, l < length (nd_ranges a) -> l <> i -> 0 < nth l (nd_ranges a) 0) by (intros; apply Forall_pos_nth; assumption).
+    assert (W1 : wf_nd (sm a (basis_matrix d xs) i)) by (apply sm_wf; assumption).
+    pose proof (sm_ranges a (basis_matrix d xs) i) as R1.
+    assert (G1 : forall g, nd_get (sm a (basis_matrix d xs) i) g = nsum (nth i (nd_ranges a) 0) (fun k => mul (mget (basis_matrix d xs) (nth i g 0) k) (nd_get a (upd g i k))))
+      by (intro g; apply slicemultiply_get; assumption).
+    unfold sm in *. set (a1 := slicemultiply a (nth i (nd_ranges a) 0) (basis_matrix d xs) i) in *.
+    assert (Hbl : length (basis_matrix d xs) = length xs) by (unfold basis_matrix; apply map_length).
+    destruct (IH gs (S i) a1) as [W2 [G2 R2]].
+    + exact W1.
+    + rewrite R1, upd_length. lia.
+    + lia.
+    + rewrite R1. apply Forall_upd; [exact Hpos|]. rewrite Hbl. destruct xs; [contradiction|cbn [length]; lia].
+    + exact Hne'.
+    + intros q d' Hq. rewrite R1. rewrite nth_upd_neq by lia. rewrite (Hns (S q) d' Hq). f_equal. lia.
+    + split; [exact W2|]. split.
+      * intro g. rewrite G2. rewrite (TS_ext _ _ G1). fold (MPf (mget (basis_matrix d xs)) (nth i (nd_ranges a) 0) i (nd_get a)).
+        rewrite TS_push by lia. cbn [TS]. rewrite Hn0. apply nsum_ext. intros k _. reflexivity.
+      * rewrite R2, R1. rewrite firstn_S_upd by exact Hi. rewrite Hbl. rewrite <- app_assoc. reflexivity.
+Qed.
+
 End Sums.
